@@ -20,7 +20,21 @@ EXPL = ("Closed normal forms (exact rational functions over the constants a,b,c,
 
 def trace_key(o):
     """Dispatch decisions only (tests on the equation type); data-dependent tests inside an arm are part of the arm."""
-    return tuple((poly.key_str(c), d) for c, d in o.trace if isinstance(c, tuple) and c and c[0] in ("streq", "streq2"))
+    pos, neg, other = {}, {}, []
+    for c, d in o.trace:
+        if not (isinstance(c, tuple) and c):
+            continue
+        if c[0] == "streq":
+            if d:
+                pos[c[1]] = c[2]
+            else:
+                neg.setdefault(c[1], set()).add(c[2])
+        elif c[0] == "streq2":
+            other.append((poly.key_str(c), d))
+    # what the path knows about each tested string, whatever the order and form of the tests that established it
+    key = [("%s is %s" % (p, v), True) for p, v in sorted(pos.items())]
+    key += [("%s is none of %s" % (p, sorted(vs)), True) for p, vs in sorted(neg.items()) if p not in pos]
+    return tuple(key + other)
 
 
 def run(ck):
@@ -93,7 +107,7 @@ def run(ck):
     ck.floor("vapour-pressure equation arms", arms, 2)
     def nomatch(o):
         tk = trace_key(o)
-        return bool(tk) and all(not d for _, d in tk)
+        return bool(tk) and all(" is none of " in c for c, _ in tk)
     ck.ob("K2", fp.qualname, "unknown equation type raises", fp.loc(), any(nomatch(o) for o in outs_p) and
           all(o.kind == "raise" for o in outs_p if nomatch(o)), "the path on which no equation type matches must raise")
     ck.ob("K2", fh.qualname, "unknown equation type raises", fh.loc(), any(nomatch(o) for o in outs_h) and
